@@ -2,17 +2,23 @@ package props
 
 // C13 - MtA turns a product of secrets into additive shares of that product.
 //
-// Design level : spec/MtA.tla (ideal homomorphic encryption, ideal proofs, real integer arithmetic over a toy
-//                group order) is model-checked exhaustively by TLC.
-// Binding (A)  : real exchanges (crypto/mta at real size over the vendored parameter sets) are logged as ndjson
-//                and validated against spec/MtA_Trace.tla.
+// Design level : spec/MtA.tla (ideal homomorphic encryption, ideal proofs that may also be CRAFTED, receivers that
+//                live in a process with a history; real integer arithmetic over a toy group order) is model-checked
+//                exhaustively by TLC.  spec/MtACraft.tla derives the catalogue of crafted transcripts from the
+//                verification equations of the three embedded proofs (checked by MtACraftMC.tla).
+// Binding (A)  : real exchanges (crypto/mta at real size over the vendored parameter sets) - unaltered, with an
+//                altered ciphertext whose proof travels unchanged or is crafted after a catalogue row, with a wrong
+//                point, each also after / around an accepted genuine exchange in the same process - are logged as
+//                ndjson and validated against spec/MtA_Trace.tla.
 // Verdict      : only ever from the real outputs - the congruence computed with math/big, the accept / reject
 //                decisions returned by BobMid[WC] / AliceEnd[WC].
+//
+// Files: c13.go (scenario space, TLC runs, the check), c13_run.go (one real exchange), c13_craft.go (catalogue rows
+// on real-size transcripts), c13_dec.go (independent Paillier arithmetic).
 
 import (
 	"encoding/json"
 	"fmt"
-	"math/big"
 	"math/rand"
 	"os"
 	"path/filepath"
@@ -22,30 +28,28 @@ import (
 	"sync"
 	"time"
 
-	"github.com/bnb-chain/tss-lib/v2/crypto"
-	"github.com/bnb-chain/tss-lib/v2/crypto/mta"
 	eckg "github.com/bnb-chain/tss-lib/v2/ecdsa/keygen"
-	"github.com/bnb-chain/tss-lib/v2/tss"
 
 	"verif/harness/core"
-	"verif/harness/obs"
 	"verif/harness/pump"
 	"verif/harness/tlc"
 )
 
 // ------------------------------------------------------------------ scenario space
 
-// c13Scenario is one real exchange; everything else (secrets, library randomness) derives from Seed.
+// c13Scenario is one real exchange (with its history); everything else (secrets, library randomness) derives from Seed.
 type c13Scenario struct {
-	Idx  int    `json:"idx"`
-	WC   bool   `json:"wc"`   // BobMidWC / AliceEndWC
-	IA   int    `json:"ia"`   // vendored parameter set of Alice (Paillier key, her NTilde,h1,h2)
-	IB   int    `json:"ib"`   // vendored parameter set of Bob (his NTilde,h1,h2)
-	ACls string `json:"acls"` // 0 | 1 | q-1 | rand
-	BCls string `json:"bcls"`
-	Site string `json:"site"` // none | cA | cB | B
-	Kind string `json:"kind"` // the alteration (see c13Alter / c13Points)
-	Seed int64  `json:"seed"`
+	Idx   int     `json:"idx"`
+	WC    bool    `json:"wc"`   // BobMidWC / AliceEndWC
+	IA    int     `json:"ia"`   // vendored parameter set of Alice (Paillier key, her NTilde,h1,h2)
+	IB    int     `json:"ib"`   // vendored parameter set of Bob (his NTilde,h1,h2)
+	ACls  string  `json:"acls"` // 0 | 1 | q-1 | rand
+	BCls  string  `json:"bcls"`
+	Site  string  `json:"site"`            // none | cA | cB | B
+	Kind  string  `json:"kind"`            // the alteration (see c13Alter) / who holds which wrong point
+	Hist  string  `json:"hist,omitempty"`  // "" : the altered item is all the receiver ever sees | after : it is presented after the genuine item was accepted | sandwich : altered, genuine, altered
+	Craft *c13Row `json:"craft,omitempty"` // the catalogue row applied to the proof (nil: the proof travels unchanged)
+	Seed  int64   `json:"seed"`
 }
 
 func (s c13Scenario) variant() string {
@@ -56,7 +60,14 @@ func (s c13Scenario) variant() string {
 }
 
 func (s c13Scenario) caseKey() string {
-	return fmt.Sprintf("%s|A%d,B%d|a=%s,b=%s|%s:%s", s.variant(), s.IA, s.IB, s.ACls, s.BCls, s.Site, s.Kind)
+	k := fmt.Sprintf("%s|A%d,B%d|a=%s,b=%s|%s:%s", s.variant(), s.IA, s.IB, s.ACls, s.BCls, s.Site, s.Kind)
+	if s.Hist != "" {
+		k += "|" + s.Hist
+	}
+	if s.Craft != nil {
+		k += "|" + s.Craft.key()
+	}
+	return k
 }
 
 var c13Classes = []string{"0", "1", "q-1", "rand"}
@@ -66,10 +77,23 @@ var c13CtKinds = []string{"plus1", "minus1", "mulg", "inv", "random", "plusN2", 
 var c13ModelKind = map[string]string{
 	"plus1": "shift", "minus1": "shift", "mulg": "shift", "inv": "shift", "random": "shift", "plusN2": "shift", "negint": "shift",
 	"rerand": "rerand", "addq": "addq", "other": "other", "zero": "nonunit", "N": "nonunit", "multP": "nonunit", "foreign": "foreign",
+	"mulca": "mulca",
 }
+
+// real alterations a catalogue row of a given class is concretised on
+var c13KindsOfClass = map[string][]string{
+	"gamma": {"mulg", "addq"},
+	"rand":  {"rerand"},
+	"c1pow": {"mulca"},
+	"free":  {"random", "plus1", "other", "foreign", "inv", "minus1"},
+}
+
+var c13Hists = []string{"sandwich", "after", ""}
 
 // wrong public points (check variant): who holds what
 var c13PointKinds = []string{"alice-holds-plus1", "both-plus1", "both-neg", "both-rand"}
+var c13LatePointKinds = []string{"alice-holds-plus1", "alice-holds-neg", "alice-holds-rand"}
+var c13CraftPointKinds = []string{"both-plus1", "both-neg", "both-rand"}
 
 func c13Pairs() [][2]int {
 	var ps [][2]int
@@ -83,24 +107,27 @@ func c13Pairs() [][2]int {
 	return ps
 }
 
-func c13Plan(ctx *core.Ctx) (scs []c13Scenario, skippedB0 int) {
+// c13Plan: the exchanges of a run.  rows = nil: the part that does not need the catalogue (first index 0);
+// rows != nil: the crafted part (indices from `from`).
+func c13Plan(ctx *core.Ctx, rows []c13Row, from int) (scs []c13Scenario, skippedB0 int) {
 	pairs := c13Pairs()
 	rng := rand.New(rand.NewSource(ctx.Seed*7919 + 13))
 	rng.Shuffle(len(pairs), func(i, j int) { pairs[i], pairs[j] = pairs[j], pairs[i] })
 	k := 0
 	add := func(sc c13Scenario) {
-		sc.Idx = len(scs)
+		sc.Idx = from + len(scs)
 		sc.Seed = ctx.Seed*1000003 + int64(sc.Idx)*7 + 1
 		scs = append(scs, sc)
 	}
 	nextPair := func() [2]int { p := pairs[k%len(pairs)]; k++; return p }
-	// class pair for the tamper scenarios: rotate, never b = 0 with the check variant
-	ci := 0
-	nextCls := func(wc bool) (string, string) {
+	// class pair for the tamper scenarios: rotate; never b = 0 with the check variant, a # 0 where the catalogue row
+	// or the alteration needs it (the challenge of Alice's proof cannot be recovered for a = 0; cB * cA is cB * r^N then)
+	ci := int(ctx.Seed % 16)
+	nextCls := func(wc, needA bool) (string, string) {
 		for {
 			a, b := c13Classes[ci%4], c13Classes[(ci/4+ci)%4]
 			ci++
-			if wc && b == "0" {
+			if wc && b == "0" || needA && a == "0" {
 				continue
 			}
 			return a, b
@@ -113,588 +140,206 @@ func c13Plan(ctx *core.Ctx) (scs []c13Scenario, skippedB0 int) {
 			pairSets = append(pairSets, [][2]int{p})
 		}
 	}
-	for _, ps := range pairSets {
+	hi := int(ctx.Seed % 3)
+	for pi, ps := range pairSets {
 		pick := func() [2]int {
 			if ps == nil {
 				return nextPair()
 			}
 			return ps[0]
 		}
-		for _, wc := range []bool{false, true} {
-			// unaltered exchanges: all of {0,1,q-1,random}^2
-			for _, ac := range c13Classes {
-				for _, bc := range c13Classes {
-					if wc && bc == "0" {
-						// b*G is the identity, which crypto.ECPoint cannot represent: no honest input exists
-						// for the check variant (the wrong-point scenarios below run b = 0 with B = G)
-						skippedB0++
-						continue
+		if rows == nil {
+			for vi, wc := range []bool{false, true} {
+				// unaltered exchanges: all of {0,1,q-1,random}^2
+				for _, ac := range c13Classes {
+					for _, bc := range c13Classes {
+						if wc && bc == "0" {
+							// b*G is the identity, which crypto.ECPoint cannot represent: no honest input exists
+							// for the check variant (the wrong-point scenarios below run b = 0 with B = G)
+							skippedB0++
+							continue
+						}
+						p := pick()
+						add(c13Scenario{WC: wc, IA: p[0], IB: p[1], ACls: ac, BCls: bc, Site: "none", Kind: "-"})
 					}
+				}
+				if ctx.Thorough() {
 					p := pick()
-					add(c13Scenario{WC: wc, IA: p[0], IB: p[1], ACls: ac, BCls: bc, Site: "none", Kind: "-"})
+					add(c13Scenario{WC: wc, IA: p[0], IB: p[1], ACls: "rand", BCls: "rand", Site: "none", Kind: "-"})
+				}
+				// single alterations of cA / cB, the proof travels unchanged; the history rotates over the kinds
+				// (differently in the two variants, for every pair of sets and every seed)
+				for si, site := range []string{"cA", "cB"} {
+					kinds := c13CtKinds
+					if site == "cB" {
+						kinds = append(append([]string{}, c13CtKinds...), "mulca")
+					}
+					for ki, kind := range kinds {
+						p := pick()
+						ac, bc := nextCls(wc, kind == "mulca")
+						add(c13Scenario{WC: wc, IA: p[0], IB: p[1], ACls: ac, BCls: bc, Site: site, Kind: kind, Hist: c13Hists[(hi+ki+vi+si+pi)%3]})
+					}
 				}
 			}
-			if ctx.Thorough() {
+			// check variant: the point is not b*G
+			for _, kind := range c13PointKinds {
 				p := pick()
-				add(c13Scenario{WC: wc, IA: p[0], IB: p[1], ACls: "rand", BCls: "rand", Site: "none", Kind: "-"})
+				ac, bc := nextCls(true, false)
+				add(c13Scenario{WC: true, IA: p[0], IB: p[1], ACls: ac, BCls: bc, Site: "B", Kind: kind})
 			}
-			// single alterations of cA / cB
-			for _, site := range []string{"cA", "cB"} {
-				for _, kind := range c13CtKinds {
-					p := pick()
-					ac, bc := nextCls(wc)
-					add(c13Scenario{WC: wc, IA: p[0], IB: p[1], ACls: ac, BCls: bc, Site: site, Kind: kind})
+			for _, kind := range []string{"both-plus1", "both-rand"} { // b = 0: every representable point is wrong
+				p := pick()
+				add(c13Scenario{WC: true, IA: p[0], IB: p[1], ACls: c13Classes[(k+1)%4], BCls: "0", Site: "B", Kind: kind})
+			}
+			// ... and is presented after Alice has accepted the same message for b*G
+			for _, kind := range c13LatePointKinds {
+				p := pick()
+				ac, bc := nextCls(true, false)
+				add(c13Scenario{WC: true, IA: p[0], IB: p[1], ACls: ac, BCls: bc, Site: "B", Kind: kind, Hist: "after"})
+			}
+			continue
+		}
+		// the crafted transcripts: every catalogue row once per pair set, the real alteration, the variant (for Alice's
+		// proof) and the history rotate
+		for ri := range rows {
+			row := rows[ri]
+			p := pick()
+			switch row.Site {
+			case "cA", "cB":
+				kinds := c13KindsOfClass[row.Alt]
+				if len(kinds) == 0 {
+					continue
+				}
+				if row.Site == "cB" && row.Alt == "free" {
+					kinds = append(append([]string{}, kinds...), "mulg", "rerand", "mulca") // a structured alteration treated as an unrelated value
+				}
+				kind := kinds[(ri+pi+int(ctx.Seed))%len(kinds)]
+				variants := []bool{row.Sys == "bobwc"}
+				if row.Sys == "alice" { // Alice's proof is verified by BobMid and by BobMidWC
+					variants = []bool{false, true}
+				}
+				for vi, wc := range variants {
+					ac, bc := nextCls(wc, row.Site == "cA" || kind == "mulca")
+					add(c13Scenario{WC: wc, IA: p[0], IB: p[1], ACls: ac, BCls: bc, Site: row.Site, Kind: kind, Hist: c13Hists[(hi+ri+pi+vi)%3], Craft: &row})
+					kind = kinds[(ri+pi+int(ctx.Seed)+1)%len(kinds)]
+					p = pick()
+				}
+			case "B":
+				for hj, hist := range []string{"", "after"} {
+					kind := c13CraftPointKinds[(ri+pi+hj+int(ctx.Seed))%len(c13CraftPointKinds)]
+					ac, bc := nextCls(true, false)
+					add(c13Scenario{WC: true, IA: p[0], IB: p[1], ACls: ac, BCls: bc, Site: "B", Kind: kind, Hist: hist, Craft: &row})
+					p = pick()
+				}
+				if !ctx.Thorough() || pi%5 == 0 { // b = 0: Bob's multiplier is 0, every representable point is wrong
+					add(c13Scenario{WC: true, IA: p[0], IB: p[1], ACls: c13Classes[(ri+pi+1)%4], BCls: "0", Site: "B", Kind: "both-plus1", Craft: &row})
 				}
 			}
-		}
-		// check variant: the point is not b*G
-		for _, kind := range c13PointKinds {
-			p := pick()
-			ac, bc := nextCls(true)
-			add(c13Scenario{WC: true, IA: p[0], IB: p[1], ACls: ac, BCls: bc, Site: "B", Kind: kind})
-		}
-		for _, kind := range []string{"both-plus1", "both-rand"} { // b = 0: every representable point is wrong
-			p := pick()
-			add(c13Scenario{WC: true, IA: p[0], IB: p[1], ACls: c13Classes[(k+1)%4], BCls: "0", Site: "B", Kind: kind})
 		}
 	}
 	return scs, skippedB0
 }
 
-// ------------------------------------------------------------------ independent Paillier decryption (CRT)
+// ------------------------------------------------------------------ TLC: catalogue, design model, trace validation
 
-// c13Dec decrypts with the prime factors: m_p = L_p(c^(p-1) mod p^2) * h_p mod p, same for q, then CRT.
-// Nothing of crypto/paillier is used (the library decrypts with lambda over N^2).
-type c13Dec struct {
-	p, q, n, n2, p2, q2, hp, hq, pInvQ *big.Int
+const c13CraftInvs = "GenuineAccepted StatementAltered UncraftedRejected CraftSound CraftPinned RowPredicts OnlyNamedParts"
+
+// c13Catalogue lets TLC derive and check the catalogue of crafted transcripts (MtACraft.tla / MtACraftMC.tla).
+func c13Catalogue() ([]c13Row, tlc.Result, error) {
+	r := tlc.Run(tlc.Options{Module: "MtACraftMC", Cfg: "SPECIFICATION Spec\nINVARIANTS " + c13CraftInvs + "\nCHECK_DEADLOCK FALSE\n",
+		Workers: 2, Heap: "1g", Timeout: 15 * time.Minute})
+	if r.Err != nil {
+		return nil, r, r.Err
+	}
+	if !r.OK {
+		return nil, r, fmt.Errorf("MtACraftMC violates %s:\n%s", r.Violated, r.ErrorTrace(2000))
+	}
+	rows, err := c13ParseRows(r.Output)
+	if err != nil {
+		return nil, r, err
+	}
+	// what the harness relies on: rows for every site / system, among them the two prover runs of a cheating Bob
+	need := map[string]bool{"cA/alice": false, "cB/bob": false, "cB/bobwc": false, "B/bobwc": false}
+	for _, x := range rows {
+		need[x.Site+"/"+x.Sys] = true
+	}
+	for k, ok := range need {
+		if !ok {
+			return nil, r, fmt.Errorf("the catalogue has no row for %s", k)
+		}
+	}
+	return rows, r, nil
 }
-
-var c13One = big.NewInt(1)
-
-func c13L(x, p *big.Int) *big.Int {
-	return new(big.Int).Div(new(big.Int).Sub(x, c13One), p)
-}
-
-func newC13Dec(p, q *big.Int) (*c13Dec, error) {
-	if p == nil || q == nil || p.Cmp(q) == 0 || !p.ProbablyPrime(8) || !q.ProbablyPrime(8) {
-		return nil, fmt.Errorf("fixture does not carry two distinct primes")
-	}
-	d := &c13Dec{p: p, q: q}
-	d.n = new(big.Int).Mul(p, q)
-	d.n2 = new(big.Int).Mul(d.n, d.n)
-	d.p2 = new(big.Int).Mul(p, p)
-	d.q2 = new(big.Int).Mul(q, q)
-	g := new(big.Int).Add(d.n, c13One)
-	pm1 := new(big.Int).Sub(p, c13One)
-	qm1 := new(big.Int).Sub(q, c13One)
-	d.hp = new(big.Int).ModInverse(c13L(new(big.Int).Exp(g, pm1, d.p2), p), p)
-	d.hq = new(big.Int).ModInverse(c13L(new(big.Int).Exp(g, qm1, d.q2), q), q)
-	d.pInvQ = new(big.Int).ModInverse(p, q)
-	if d.hp == nil || d.hq == nil || d.pInvQ == nil {
-		return nil, fmt.Errorf("CRT constants do not exist")
-	}
-	return d, nil
-}
-
-// wellFormed: 0 < c < N^2 and c is a unit modulo N^2.
-func (d *c13Dec) wellFormed(c *big.Int) bool {
-	return c != nil && c.Sign() > 0 && c.Cmp(d.n2) < 0 && new(big.Int).GCD(nil, nil, c, d.n).Cmp(c13One) == 0
-}
-
-func (d *c13Dec) dec(c *big.Int) (*big.Int, bool) {
-	if !d.wellFormed(c) {
-		return nil, false
-	}
-	pm1 := new(big.Int).Sub(d.p, c13One)
-	qm1 := new(big.Int).Sub(d.q, c13One)
-	mp := c13L(new(big.Int).Exp(c, pm1, d.p2), d.p)
-	mp.Mul(mp, d.hp).Mod(mp, d.p)
-	mq := c13L(new(big.Int).Exp(c, qm1, d.q2), d.q)
-	mq.Mul(mq, d.hq).Mod(mq, d.q)
-	// m = mp + p * ((mq - mp) / p mod q)
-	t := new(big.Int).Sub(mq, mp)
-	t.Mul(t, d.pInvQ).Mod(t, d.q)
-	return t.Mul(t, d.p).Add(t, mp), true
-}
-
-// enc builds (1 + m*N) * r^N mod N^2 by its own formula (self check and crafted alterations).
-func (d *c13Dec) enc(m, r *big.Int) *big.Int {
-	c := new(big.Int).Mul(m, d.n)
-	c.Add(c, c13One)
-	c.Mul(c, new(big.Int).Exp(r, d.n, d.n2))
-	return c.Mod(c, d.n2)
-}
-
-func (d *c13Dec) selfCheck(rng *rand.Rand) error {
-	nm1 := new(big.Int).Sub(d.n, c13One)
-	for _, m := range []*big.Int{big.NewInt(0), big.NewInt(1), nm1, new(big.Int).Rand(rng, d.n)} {
-		r := new(big.Int).Rand(rng, d.n)
-		if new(big.Int).GCD(nil, nil, r, d.n).Cmp(c13One) != 0 {
-			continue
-		}
-		got, ok := d.dec(d.enc(m, r))
-		if !ok || got.Cmp(m) != 0 {
-			return fmt.Errorf("CRT decryption does not invert the encryption formula")
-		}
-	}
-	if _, ok := d.dec(d.n); ok {
-		return fmt.Errorf("CRT decryption accepted a non-unit")
-	}
-	return nil
-}
-
-// ------------------------------------------------------------------ one real exchange
-
-type c13Viol struct {
-	Key, What string
-}
-
-type c13Result struct {
-	Sc      c13Scenario
-	Events  []map[string]any // ndjson lines (Reset first)
-	Viols   []c13Viol
-	Drift   []string // an observation that is false although the property is not contradicted
-	Outcome string   // shares | bob-rejected | alice-rejected | aborted
-	Inconcl string   // the harness could not build / observe the case
-	Info    map[string]any
-}
-
-// c13Call runs f and converts a panic in the calling goroutine into a string.
-func c13Call(f func()) (panicked string) {
-	defer func() {
-		if r := recover(); r != nil {
-			panicked = fmt.Sprint(r)
-		}
-	}()
-	f()
-	return ""
-}
-
-func c13ClassValue(cls string, rng *rand.Rand, q *big.Int) *big.Int {
-	switch cls {
-	case "0":
-		return big.NewInt(0)
-	case "1":
-		return big.NewInt(1)
-	case "q-1":
-		return new(big.Int).Sub(q, c13One)
-	}
-	for {
-		v := new(big.Int).Rand(rng, q)
-		if v.Cmp(big.NewInt(1)) > 0 && v.Cmp(new(big.Int).Sub(q, c13One)) < 0 {
-			return v
-		}
-	}
-}
-
-const c13ToyQ = 5
-
-func c13Toy(cls string, v *big.Int) int {
-	switch cls {
-	case "0":
-		return 0
-	case "1":
-		return 1
-	case "q-1":
-		return c13ToyQ - 1
-	}
-	return 2 + int(v.Bit(0))
-}
-
-func c13ECPoint(p obs.Pt) (*crypto.ECPoint, error) {
-	if p.Inf {
-		return nil, fmt.Errorf("identity")
-	}
-	return crypto.NewECPoint(tss.S256(), p.X, p.Y)
-}
-
-// c13Alter returns the altered ciphertext for kind; other is the corresponding ciphertext of another exchange,
-// foreign one made under a third party's key.
-func c13Alter(kind string, c *big.Int, d *c13Dec, q *big.Int, rng *rand.Rand, other, foreign *big.Int) *big.Int {
-	unit := func() *big.Int {
-		for {
-			x := new(big.Int).Rand(rng, d.n)
-			if x.Sign() > 0 && new(big.Int).GCD(nil, nil, x, d.n).Cmp(c13One) == 0 {
-				return x
-			}
-		}
-	}
-	mulmod := func(x, y *big.Int) *big.Int { z := new(big.Int).Mul(x, y); return z.Mod(z, d.n2) }
-	switch kind {
-	case "plus1":
-		return new(big.Int).Add(c, c13One)
-	case "minus1":
-		return new(big.Int).Sub(c, c13One)
-	case "mulg": // plaintext + 1
-		return mulmod(c, d.enc(big.NewInt(1), big.NewInt(1)))
-	case "inv": // plaintext negated
-		return new(big.Int).ModInverse(c, d.n2)
-	case "random":
-		return new(big.Int).Rand(rng, d.n2)
-	case "plusN2": // same residue, outside [0, N^2)
-		return new(big.Int).Add(c, d.n2)
-	case "negint":
-		return new(big.Int).Neg(c)
-	case "rerand": // same plaintext, fresh randomiser
-		return mulmod(c, d.enc(big.NewInt(0), unit()))
-	case "addq": // plaintext + q : the same residue modulo q
-		return mulmod(c, d.enc(q, big.NewInt(1)))
-	case "other":
-		return other
-	case "zero":
-		return big.NewInt(0)
-	case "N":
-		return new(big.Int).Set(d.n)
-	case "multP": // a multiple of a prime factor below N^2
-		z := new(big.Int).Div(c, d.p)
-		return z.Mul(z, d.p)
-	case "foreign":
-		return foreign
-	}
-	return nil
-}
-
-func c13Run(sc c13Scenario, keys []eckg.LocalPartySaveData) (res c13Result) {
-	res.Sc = sc
-	res.Info = map[string]any{}
-	ec := tss.S256()
-	q := ec.Params().N
-	rng := rand.New(rand.NewSource(sc.Seed))
-	lib := pump.NewDRBG(sc.Seed ^ 0x5eed13) // the library's randomness
-	A, B := keys[sc.IA], keys[sc.IB]
-	skA := A.PaillierSK
-	pkA := &skA.PublicKey
-	d, err := newC13Dec(skA.P, skA.Q)
-	if err != nil || d.n.Cmp(pkA.N) != 0 {
-		res.Inconcl = fmt.Sprintf("parameter set %d: cannot build the independent decryptor: %v", sc.IA, err)
-		return
-	}
-	sess := []byte(fmt.Sprintf("c13-session-%d", sc.Seed))
-	a := c13ClassValue(sc.ACls, rng, q)
-	b := c13ClassValue(sc.BCls, rng, q)
-	ab := new(big.Int).Mul(a, b)
-	fn := func(s string) string {
-		if sc.WC && s != "AliceInit" {
-			return s + "WC"
-		}
-		return s
-	}
-	viol := func(key, what string) { res.Viols = append(res.Viols, c13Viol{key, what}) }
-	ev := func(m map[string]any) { res.Events = append(res.Events, m) }
-	res.Info["a"], res.Info["b"] = core.Short(a.Text(16), 70), core.Short(b.Text(16), 70)
-
-	// ---- toy projection for the trace (see MtA_Trace.tla)
-	toyA, toyB := c13Toy(sc.ACls, a), c13Toy(sc.BCls, b)
-	otherPoint := func(not int) int { // a representable toy point different from `not`
-		for p := 1; p < c13ToyQ; p++ {
-			if p != not%c13ToyQ {
-				return p
-			}
-		}
-		return 1
-	}
-	bpubToy, bobxToy := -1, -1
-	// ---- the real points
-	var bobX, bPub *crypto.ECPoint
-	if sc.WC {
-		honest := obs.BaseMul(obs.Secp, b) // independent affine arithmetic
-		mk := func(k *big.Int) *crypto.ECPoint {
-			k = new(big.Int).Mod(k, q)
-			if k.Sign() == 0 {
-				k = big.NewInt(2)
-			}
-			if k.Cmp(b) == 0 {
-				k = new(big.Int).Add(k, c13One)
-			}
-			p, e := c13ECPoint(obs.BaseMul(obs.Secp, k))
-			if e != nil {
-				return nil
-			}
-			return p
-		}
-		var wrong *crypto.ECPoint
-		switch sc.Kind {
-		case "alice-holds-plus1", "both-plus1":
-			wrong = mk(new(big.Int).Add(b, c13One))
-		case "both-neg":
-			wrong = mk(new(big.Int).Sub(q, b))
-		case "both-rand":
-			wrong = mk(new(big.Int).Rand(rng, q))
-		}
-		if sc.Site == "B" {
-			if wrong == nil {
-				res.Inconcl = "could not build the wrong point"
-				return
-			}
-			bPub = wrong
-			bpubToy = otherPoint(toyB)
-			if strings.HasPrefix(sc.Kind, "both-") {
-				bobX, bobxToy = wrong, bpubToy
-			} else {
-				hp, e := c13ECPoint(honest)
-				if e != nil {
-					res.Inconcl = "b*G is not representable"
-					return
-				}
-				bobX, bobxToy = hp, toyB
-			}
-		} else {
-			hp, e := c13ECPoint(honest)
-			if e != nil {
-				res.Inconcl = "b*G is not representable"
-				return
-			}
-			bobX, bPub = hp, hp
-			bpubToy, bobxToy = toyB, toyB
-		}
-	}
-	ev(map[string]any{"ev": "Reset", "id": sc.Idx, "wc": sc.WC, "a": toyA, "b": toyB, "bpub": bpubToy, "bobx": bobxToy})
-
-	// ---- message 1
-	var cA *big.Int
-	var pfA *mta.RangeProofAlice
-	pan := c13Call(func() { cA, pfA, err = mta.AliceInit(ec, pkA, a, B.NTildei, B.H1i, B.H2i, lib) })
-	if pan != "" || err != nil || cA == nil || pfA == nil {
-		viol(fmt.Sprintf("C13:AliceInit:honest-input-fails:a=%s", sc.ACls),
-			fmt.Sprintf("AliceInit on a=%s (class %s) with parameter sets A=%d,B=%d did not produce a ciphertext and proof: err=%v panic=%q", a.Text(16), sc.ACls, sc.IA, sc.IB, err, pan))
-		res.Outcome = "aborted"
-		return
-	}
-	{
-		m, ok := d.dec(cA)
-		o := map[string]any{"ca_wellformed": ok, "ca_plain_ok": ok && m.Cmp(a) == 0}
-		ev(map[string]any{"ev": "AliceInit", "ret": "ok", "r": 1 + sc.Idx%2, "obs": o})
-		if !(ok && m.Cmp(a) == 0) {
-			res.Drift = append(res.Drift, "cA does not decrypt (independently) to a")
-		}
-	}
-	sentCA := cA
-	if sc.Site == "cA" {
-		var other, foreign *big.Int
-		switch sc.Kind {
-		case "other":
-			a2 := c13ClassValue("rand", rng, q)
-			pan := c13Call(func() { other, _, err = mta.AliceInit(ec, pkA, a2, B.NTildei, B.H1i, B.H2i, lib) })
-			if pan != "" || err != nil || other == nil {
-				res.Inconcl = fmt.Sprintf("second AliceInit failed: %v %s", err, pan)
-				return
-			}
-		case "foreign":
-			third := keys[(sc.IA+1)%5] // a set that is not Alice's
-			pan := c13Call(func() { foreign, err = third.PaillierSK.PublicKey.Encrypt(lib, a) })
-			if pan != "" || err != nil || foreign == nil {
-				res.Inconcl = fmt.Sprintf("encryption under a third key failed: %v %s", err, pan)
-				return
-			}
-		}
-		sentCA = c13Alter(sc.Kind, cA, d, q, rng, other, foreign)
-		if sentCA == nil || sentCA.Cmp(cA) == 0 {
-			res.Inconcl = "alteration " + sc.Kind + " did not change cA"
-			return
-		}
-		ev(map[string]any{"ev": "TamperCA", "kind": c13ModelKind[sc.Kind]})
-	}
-
-	// ---- message 2
-	var beta, cB, betaPrm *big.Int
-	var piB *mta.ProofBob
-	var piW *mta.ProofBobWC
-	bobMid := func(bb, c *big.Int) (be, cb, bp *big.Int, p *mta.ProofBob, pw *mta.ProofBobWC, e error, pn string) {
-		pn = c13Call(func() {
-			if sc.WC {
-				be, cb, bp, pw, e = mta.BobMidWC(sess, ec, pkA, pfA, bb, c, A.NTildei, A.H1i, A.H2i, B.NTildei, B.H1i, B.H2i, bobX, lib)
-			} else {
-				be, cb, bp, p, e = mta.BobMid(sess, ec, pkA, pfA, bb, c, A.NTildei, A.H1i, A.H2i, B.NTildei, B.H1i, B.H2i, lib)
-			}
-		})
-		return
-	}
-	var bobErr error
-	beta, cB, betaPrm, piB, piW, bobErr, pan = bobMid(b, sentCA)
-	bobOK := pan == "" && bobErr == nil && beta != nil && cB != nil && betaPrm != nil && (piB != nil || piW != nil)
-	if sc.Site == "cA" {
-		switch {
-		case pan != "":
-			viol(fmt.Sprintf("C13:%s:panic:altered-cA:%s", fn("BobMid"), c13ModelKind[sc.Kind]),
-				fmt.Sprintf("%s does not reject an altered cA (alteration %q) but panics: %s", fn("BobMid"), sc.Kind, core.Short(pan, 160)))
-			res.Outcome = "aborted"
-		case bobErr == nil:
-			viol(fmt.Sprintf("C13:%s:accepts-altered-cA:%s", fn("BobMid"), sc.Kind),
-				fmt.Sprintf("%s returned no error for an altered cA (alteration %q) and produced beta/cB", fn("BobMid"), sc.Kind))
-			res.Outcome = "shares"
-		default:
-			ev(map[string]any{"ev": "BobMid", "ret": "err", "mask": 0, "r": 1, "obs": map[string]any{"rejected": true}})
-			res.Outcome = "bob-rejected"
-		}
-		return
-	}
-	if !bobOK {
-		if sc.Site == "B" && strings.HasPrefix(sc.Kind, "both-") && pan == "" && bobErr != nil {
-			// Bob refuses to prove a false statement: no share reaches Alice; the model lets Bob go on, so this is drift
-			res.Drift = append(res.Drift, "BobMidWC refused a point that is not b*G")
-			res.Outcome = "bob-rejected"
-			return
-		}
-		viol(fmt.Sprintf("C13:%s:honest-input-fails:a=%s,b=%s", fn("BobMid"), sc.ACls, sc.BCls),
-			fmt.Sprintf("%s on an unaltered cA with a=%s b=%s (classes %s,%s), parameter sets A=%d,B=%d failed: err=%v panic=%q",
-				fn("BobMid"), a.Text(16), b.Text(16), sc.ACls, sc.BCls, sc.IA, sc.IB, bobErr, pan))
-		res.Outcome = "aborted"
-		return
-	}
-	q5 := new(big.Int).Exp(q, big.NewInt(5), nil)
-	want := new(big.Int).Add(ab, betaPrm) // the integer a*b + beta'
-	{
-		m, ok := d.dec(cB)
-		negMask := new(big.Int).Neg(betaPrm)
-		negMask.Mod(negMask, q)
-		o := map[string]any{
-			"cb_wellformed": ok,
-			"cb_plain_ok":   ok && m.Cmp(want) == 0,                     // NoWrap: cB decrypts to the INTEGER a*b + beta'
-			"no_wrap":       want.Cmp(d.n) < 0,                          // ... which is below N
-			"mask_in_range": betaPrm.Sign() >= 0 && betaPrm.Cmp(q5) < 0, // beta' in [0, q^5)
-			"beta_ok":       beta.Cmp(negMask) == 0,                     // beta = -beta' mod q, in [0, q)
-		}
-		toyMask := int(new(big.Int).Mod(betaPrm, big.NewInt(3125)).Int64())
-		ev(map[string]any{"ev": "BobMid", "ret": "ok", "mask": toyMask, "r": 1 + (sc.Idx/2)%2, "obs": o})
-		for k, v := range o {
-			if !v.(bool) {
-				res.Drift = append(res.Drift, "BobMid observation "+k+" is false")
-			}
-		}
-	}
-	sentCB := cB
-	if sc.Site == "cB" {
-		var other, foreign *big.Int
-		switch sc.Kind {
-		case "other":
-			b2 := c13ClassValue("rand", rng, q)
-			_, o2, _, _, _, e2, pn2 := bobMid(b2, cA)
-			if pn2 != "" || e2 != nil || o2 == nil {
-				res.Inconcl = fmt.Sprintf("second BobMid failed: %v %s", e2, pn2)
-				return
-			}
-			other = o2
-		case "foreign":
-			third := keys[(sc.IA+1)%5]
-			pan := c13Call(func() {
-				foreign, err = third.PaillierSK.PublicKey.Encrypt(lib, new(big.Int).Mod(want, third.PaillierSK.N))
-			})
-			if pan != "" || err != nil || foreign == nil {
-				res.Inconcl = fmt.Sprintf("encryption under a third key failed: %v %s", err, pan)
-				return
-			}
-		}
-		sentCB = c13Alter(sc.Kind, cB, d, q, rng, other, foreign)
-		if sentCB == nil || sentCB.Cmp(cB) == 0 {
-			res.Inconcl = "alteration " + sc.Kind + " did not change cB"
-			return
-		}
-		ev(map[string]any{"ev": "TamperCB", "kind": c13ModelKind[sc.Kind]})
-	}
-
-	// ---- Alice's end
-	var alpha *big.Int
-	var endErr error
-	pan = c13Call(func() {
-		if sc.WC {
-			alpha, endErr = mta.AliceEndWC(sess, ec, pkA, piW, bPub, cA, sentCB, A.NTildei, A.H1i, A.H2i, skA)
-		} else {
-			alpha, endErr = mta.AliceEnd(sess, ec, pkA, piB, A.H1i, A.H2i, cA, sentCB, A.NTildei, skA)
-		}
-	})
-	accepted := pan == "" && endErr == nil
-	switch sc.Site {
-	case "cB", "B":
-		what := "an altered cB (alteration " + sc.Kind + ")"
-		key := fmt.Sprintf("C13:%s:accepts-altered-cB:%s", fn("AliceEnd"), sc.Kind)
-		if sc.Site == "B" {
-			what = "a public point that is not b*G (" + sc.Kind + ", b class " + sc.BCls + ")"
-			key = fmt.Sprintf("C13:AliceEndWC:accepts-wrong-point:%s", sc.Kind)
-		}
-		switch {
-		case pan != "":
-			k := c13ModelKind[sc.Kind]
-			if sc.Site == "B" {
-				k = sc.Kind
-			}
-			viol(fmt.Sprintf("C13:%s:panic:%s:%s", fn("AliceEnd"), map[string]string{"cB": "altered-cB", "B": "wrong-point"}[sc.Site], k),
-				fmt.Sprintf("%s does not reject %s but panics: %s", fn("AliceEnd"), what, core.Short(pan, 160)))
-			res.Outcome = "aborted"
-		case accepted:
-			viol(key, fmt.Sprintf("%s returned a share for %s", fn("AliceEnd"), what))
-			res.Outcome = "shares"
-		default:
-			ev(map[string]any{"ev": "AliceEnd", "ret": "err", "obs": map[string]any{"rejected": true}})
-			res.Outcome = "alice-rejected"
-		}
-		return
-	}
-	if !accepted || alpha == nil {
-		viol(fmt.Sprintf("C13:%s:honest-exchange-rejected:a=%s,b=%s", fn("AliceEnd"), sc.ACls, sc.BCls),
-			fmt.Sprintf("%s on an unaltered exchange with a=%s b=%s (classes %s,%s), parameter sets A=%d,B=%d failed: err=%v panic=%q",
-				fn("AliceEnd"), a.Text(16), b.Text(16), sc.ACls, sc.BCls, sc.IA, sc.IB, endErr, pan))
-		res.Outcome = "aborted"
-		return
-	}
-	// the verdict: (alpha + beta - a*b) mod q == 0, on the real outputs
-	s := new(big.Int).Add(alpha, beta)
-	s.Sub(s, ab)
-	s.Mod(s, q)
-	sumOK := s.Sign() == 0
-	o := map[string]any{
-		"sum_ok":         sumOK,
-		"alpha_plain_ok": alpha.Cmp(new(big.Int).Mod(want, q)) == 0, // alpha = (a*b + beta') mod q
-		"alpha_in_range": alpha.Sign() >= 0 && alpha.Cmp(q) < 0,
-	}
-	ev(map[string]any{"ev": "AliceEnd", "ret": "ok", "obs": o})
-	res.Outcome = "shares"
-	res.Info["alpha"], res.Info["beta"] = core.Short(alpha.Text(16), 70), core.Short(beta.Text(16), 70)
-	if !sumOK {
-		viol(fmt.Sprintf("C13:%s:shares-do-not-add-up:a=%s,b=%s", fn("AliceEnd"), sc.ACls, sc.BCls),
-			fmt.Sprintf("unaltered %s exchange, a=%s b=%s: alpha=%s beta=%s, (alpha+beta-a*b) mod q = %s != 0 (parameter sets A=%d,B=%d)",
-				sc.variant(), a.Text(16), b.Text(16), alpha.Text(16), beta.Text(16), s.Text(16), sc.IA, sc.IB))
-	} else {
-		for k, v := range o {
-			if !v.(bool) {
-				res.Drift = append(res.Drift, "AliceEnd observation "+k+" is false")
-			}
-		}
-	}
-	return
-}
-
-// ------------------------------------------------------------------ TLC: design model and trace validation
 
 type c13MC struct {
-	Q     int
-	WC    bool
-	Masks string // TLA+ set expression
-	Label string
+	Q        int
+	WC       bool
+	Masks    string // TLA+ set expression
+	Label    string
+	Craft    bool   // the catalogue rows are moves of the network / of Bob
+	Hist     bool   // retransmissions and later presentations
+	Memo     string // none | acc-item | acc-proof | rej-proof
+	Unhashed string // TLA+ set of <<system, value>>
+	Expect   string // "" : every invariant holds; else: a self-test - one of these invariants must be violated
 }
 
-const c13Invs = "TypeOK SharesAddUp HonestCompletes NoWrap TamperRejected CheckRejects"
+const c13Invs = "TypeOK SharesAddUp HonestCompletes NoWrap TamperRejected CheckRejects LateRejected HistoryFree"
 
-func c13MCPlan(ctx *core.Ctx) []c13MC {
-	// The mask arithmetic does not depend on the public point and vice versa: the plain variant carries the
-	// exhaustive mask ranges, the check variant (whose initial states multiply by the points) the edge sets.
+// c13MCPlan: configurations that do not need the catalogue (first result) and those that do.
+func c13MCPlan(ctx *core.Ctx) (plain, crafted []c13MC) {
+	// The mask arithmetic does not depend on the public point, on crafted proofs or on the history, and vice versa:
+	// the plain variant without them carries the exhaustive mask ranges, the check variant the edge sets, and the
+	// configurations with crafted transcripts and histories a few masks.
 	all := "0..(Q5 - 1)"
 	edge5 := "(0..11) \\cup (23..27) \\cup {124, 125, 126, 624, 625, 626, 1562} \\cup (3118..3124)"
-	few5 := "{0, 1, 4, 5, 6, 25, 1562, 3120, 3124}"
+	few5 := "{0, 4, 5, 25, 1562, 3124}"
+	mk := func(q int, wc bool, masks, label string) c13MC {
+		return c13MC{Q: q, WC: wc, Masks: masks, Label: label, Memo: "none", Unhashed: "{}"}
+	}
+	full := func(m c13MC) c13MC { m.Craft, m.Hist = true, true; return m }
+	self := func(wc, craft, hist bool, memo, unhashed, expect string) c13MC {
+		return c13MC{Q: 3, WC: wc, Masks: "{0}", Label: "self-test: " + memo + " " + unhashed, Craft: craft, Hist: hist, Memo: memo, Unhashed: unhashed, Expect: expect}
+	}
 	if !ctx.Thorough() {
-		// two JVMs only: the exhaustive mask range at Q=3, and the check variant (which contains the plain logic:
-		// an honest point behaves like no point) at Q=5 on edge masks
-		return []c13MC{
-			{3, false, all, "all 243 masks"},
-			{5, true, few5, "9 masks: 0, 1, q-1, q, q+1, q^2, q^5/2, q^5-q, q^5-1"},
+		plain = []c13MC{
+			mk(3, false, all, "all 243 masks"),
+			mk(5, true, few5, "6 masks: 0, q-1, q, q^2, q^5/2, q^5-1"),
 		}
+		crafted = []c13MC{
+			full(mk(3, true, "{242}", "1 mask: q^5-1")),
+			full(mk(3, false, "{242}", "1 mask: q^5-1")),
+		}
+		// one self-test per quick run (all of them in the thorough tier)
+		if ctx.Seed%2 == 1 {
+			plain = append(plain, self(true, false, true, "acc-proof", "{}", "LateRejected TamperRejected HistoryFree")) // a memo of accepted proofs keyed without the ciphertext
+		} else {
+			crafted = append(crafted, self(true, true, false, "none", `{<<"bobwc", "U">>}`, "CheckRejects")) // the point U of Bob's proof left out of the challenge
+		}
+		return
 	}
 	wide5 := "(0..260) \\cup (3000..3124)"
-	return []c13MC{
-		{5, false, wide5, "386 masks: [0,260] and [3000,3124]"},
-		{3, false, all, "all 243 masks"},
-		{3, true, all, "all 243 masks"},
-		{5, true, edge5, "31 masks around 0, q, q^2, q^3, q^4, q^5/2, q^5-1"},
+	plain = []c13MC{
+		mk(5, false, wide5, "386 masks: [0,260] and [3000,3124]"),
+		mk(3, false, all, "all 243 masks"),
+		mk(3, true, all, "all 243 masks"),
+		mk(5, true, edge5, "31 masks around 0, q, q^2, q^3, q^4, q^5/2, q^5-1"),
+		self(true, false, true, "acc-proof", "{}", "LateRejected TamperRejected HistoryFree"),
+		self(false, false, true, "rej-proof", "{}", "HonestCompletes HistoryFree"),
 	}
+	a := mk(3, false, "{0, 1, 242}", "acc-item memo")
+	a.Hist, a.Memo = true, "acc-item"
+	plain = append(plain, a)
+	crafted = []c13MC{
+		full(mk(3, true, "{0, 1, 2, 3, 121, 242}", "6 masks")),
+		full(mk(3, false, "{0, 1, 2, 3, 121, 242}", "6 masks")),
+		full(mk(5, true, "{0, 3124}", "2 masks: 0, q^5-1")),
+		full(mk(5, false, "{0, 4, 3124}", "3 masks")),
+		self(true, true, false, "none", `{<<"bobwc", "U">>}`, "CheckRejects"),
+		self(true, true, false, "none", `{<<"bobwc", "V">>}`, "CheckRejects"),
+		self(false, true, false, "none", `{<<"alice", "c">>}`, "TamperRejected"),
+		self(false, true, true, "none", `{<<"bob", "c2">>}`, "TamperRejected LateRejected"),
+	}
+	return
 }
 
 func c13TLCBool(b bool) string {
@@ -704,7 +349,23 @@ func c13TLCBool(b bool) string {
 	return "FALSE"
 }
 
-func c13RunMC(ms []c13MC, workers, parallel int) ([]tlc.Result, error) {
+// c13Wrapper: the generated module that carries the set-valued constants.  bind: TLC compares the literal rows with the
+// catalogue `Rows` it derives itself from MtACraft.tla (costs one derivation; done in one configuration per run).
+func c13Wrapper(module, extends, masks, unhashed string, rows []c13Row, bind bool) string {
+	assume := ""
+	if bind {
+		assume = "ASSUME RowsAreTheCatalogue == CraftRowsVal = Rows\n"
+	}
+	return fmt.Sprintf("---- MODULE %s ----\nEXTENDS %s\nMasksVal == %s\nUnhashedVal == %s\nCraftRowsVal == %s\n%s====\n",
+		module, extends, masks, unhashed, c13RowsTLA(rows), assume)
+}
+
+func c13Consts(q int, wc, hist bool, memo string) string {
+	return fmt.Sprintf("CONSTANTS\n  Q = %d\n  WithCheck = %s\n  Masks <- MasksVal\n  CraftRows <- CraftRowsVal\n  History = %s\n  Memo = \"%s\"\n  Unhashed <- UnhashedVal\n",
+		q, c13TLCBool(wc), c13TLCBool(hist), memo)
+}
+
+func c13RunMC(ms []c13MC, rows []c13Row, workers, parallel int) ([]tlc.Result, error) {
 	out := make([]tlc.Result, len(ms))
 	var wg sync.WaitGroup
 	sem := make(chan struct{}, parallel)
@@ -714,19 +375,39 @@ func c13RunMC(ms []c13MC, workers, parallel int) ([]tlc.Result, error) {
 			defer wg.Done()
 			sem <- struct{}{}
 			defer func() { <-sem }()
-			wrap := fmt.Sprintf("---- MODULE MC_MtA ----\nEXTENDS MtA\nMasksVal == %s\n====\n", m.Masks)
-			cfg := fmt.Sprintf("SPECIFICATION Spec\nCONSTANTS\n  Q = %d\n  WithCheck = %s\n  Masks <- MasksVal\nINVARIANTS %s\n", m.Q, c13TLCBool(m.WC), c13Invs)
-			out[i] = tlc.Run(tlc.Options{Module: "MC_MtA", Cfg: cfg, Workers: workers, Heap: "3g", Timeout: 25 * time.Minute,
-				Files: map[string]string{"MC_MtA.tla": wrap}})
+			var rs []c13Row
+			if m.Craft {
+				rs = rows
+			}
+			w := workers
+			if m.Expect != "" {
+				w = 1
+			}
+			cfg := "SPECIFICATION Spec\n" + c13Consts(m.Q, m.WC, m.Hist, m.Memo) + "INVARIANTS " + c13Invs + "\n"
+			out[i] = tlc.Run(tlc.Options{Module: "MC_MtA", Cfg: cfg, Workers: w, Heap: "3g", Timeout: 25 * time.Minute,
+				Files: map[string]string{"MC_MtA.tla": c13Wrapper("MC_MtA", "MtA", m.Masks, m.Unhashed, rs, m.Craft && m.Expect == "" && i == 0)}})
 		}(i, m)
 	}
 	wg.Wait()
 	for i, r := range out {
+		m := ms[i]
 		if r.Err != nil {
-			return out, fmt.Errorf("MtA Q=%d wc=%v: %v", ms[i].Q, ms[i].WC, r.Err)
+			return out, fmt.Errorf("MtA %s Q=%d wc=%v: %v", m.Label, m.Q, m.WC, r.Err)
+		}
+		if m.Expect != "" {
+			// self-test: the weakened design must break one of the named invariants on the model
+			hit := false
+			for _, inv := range strings.Fields(m.Expect) {
+				hit = hit || r.Violated == inv
+			}
+			if !hit {
+				return out, fmt.Errorf("MtA %s: the weakened design (memo %s, unhashed %s) should violate one of [%s], TLC reports %q (ok=%v)",
+					m.Label, m.Memo, m.Unhashed, m.Expect, r.Violated, r.OK)
+			}
+			continue
 		}
 		if !r.OK {
-			return out, fmt.Errorf("MtA Q=%d wc=%v violates %s:\n%s", ms[i].Q, ms[i].WC, r.Violated, r.ErrorTrace(2500))
+			return out, fmt.Errorf("MtA %s Q=%d wc=%v violates %s:\n%s", m.Label, m.Q, m.WC, r.Violated, r.ErrorTrace(2500))
 		}
 	}
 	return out, nil
@@ -744,7 +425,7 @@ type c13TraceVerdict struct {
 }
 
 // c13ValidateTraces runs MtA_Trace.tla over the events of the given exchanges (one TLC run per variant).
-func c13ValidateTraces(results []*c13Result) ([]c13TraceVerdict, error) {
+func c13ValidateTraces(results []*c13Result, rows []c13Row) ([]c13TraceVerdict, error) {
 	tmpBase := os.Getenv("VERIF_TMP")
 	if tmpBase == "" {
 		tmpBase = os.TempDir()
@@ -791,11 +472,11 @@ func c13ValidateTraces(results []*c13Result) ([]c13TraceVerdict, error) {
 				return
 			}
 			abs, _ := filepath.Abs(tf.Name())
-			wrap := "---- MODULE MC_MtA_Trace ----\nEXTENDS MtA_Trace\nMasksVal == 0..(Q5 - 1)\n====\n"
-			cfg := fmt.Sprintf("SPECIFICATION TraceSpec\nCONSTANTS\n  Q = %d\n  WithCheck = %s\n  Masks <- MasksVal\nINVARIANTS TraceInv\nCONSTRAINT HighWater\nPOSTCONDITION TraceAccepted\nCHECK_DEADLOCK FALSE\n",
-				c13ToyQ, c13TLCBool(wc))
+			// the model the real code is held against: no memory (Memo = "none"), every hashed value hashed (Unhashed = {})
+			cfg := "SPECIFICATION TraceSpec\n" + c13Consts(c13ToyQ, wc, true, "none") +
+				"INVARIANTS TraceInv\nCONSTRAINT HighWater\nPOSTCONDITION TraceAccepted\nCHECK_DEADLOCK FALSE\n"
 			r := tlc.Run(tlc.Options{Module: "MC_MtA_Trace", Cfg: cfg, Env: map[string]string{"TRACE": abs}, Workers: 1, Heap: "2g",
-				Timeout: 15 * time.Minute, Files: map[string]string{"MC_MtA_Trace.tla": wrap}})
+				Timeout: 15 * time.Minute, Files: map[string]string{"MC_MtA_Trace.tla": c13Wrapper("MC_MtA_Trace", "MtA_Trace", "0..(Q5 - 1)", "{}", rows, false)}})
 			v.Res = r
 			if r.Err != nil {
 				mu.Lock()
@@ -863,6 +544,28 @@ func c13RunAll(scs []c13Scenario, keys []eckg.LocalPartySaveData, workers int) [
 	return out
 }
 
+// c13SelfTestBinding: the comparison between a catalogue row and its real-size concretisation must notice a corrupted
+// prediction (one run of a crafted exchange with a row whose `changed` set was tampered with has to end inconclusive).
+func c13SelfTestBinding(scs []c13Scenario, keys []eckg.LocalPartySaveData) error {
+	for _, sc := range scs {
+		if sc.Craft == nil || len(sc.Craft.Abs) == 0 {
+			continue
+		}
+		bad := *sc.Craft
+		bad.Abs = append([]string{}, bad.Abs[1:]...)
+		sc.Craft = &bad
+		r := c13Run(sc, keys)
+		if r.Skip != "" {
+			continue
+		}
+		if r.Inconcl == "" || !strings.Contains(r.Inconcl, "predicts") {
+			return fmt.Errorf("a corrupted catalogue row (%s without %v) was not noticed on the real-size transcript", bad.key(), sc.Craft.Abs)
+		}
+		return nil
+	}
+	return fmt.Errorf("no crafted exchange could be built for the binding self-test")
+}
+
 func C13(ctx *core.Ctx) error {
 	keys, err := pump.LoadEcFixtures(5)
 	if err != nil {
@@ -894,9 +597,15 @@ func C13(ctx *core.Ctx) error {
 		if sc.IA < 0 || sc.IA > 4 || sc.IB < 0 || sc.IB > 4 {
 			return core.Inconcl("replay names an unknown parameter set")
 		}
+		if sc.Craft != nil {
+			sc.Craft.norm()
+		}
 		r := c13Run(sc, keys)
 		if r.Inconcl != "" {
 			return core.Inconcl("replay %s: %s", sc.caseKey(), r.Inconcl)
+		}
+		if r.Skip != "" {
+			return core.Inconcl("replay %s: the crafted transcript cannot be built: %s", sc.caseKey(), r.Skip)
 		}
 		fmt.Printf("replay %s: outcome %s, %d violation(s)\n", sc.caseKey(), r.Outcome, len(r.Viols))
 		report(&r)
@@ -904,23 +613,46 @@ func C13(ctx *core.Ctx) error {
 	}
 
 	cov := core.NewCov()
-	// design model in the background
-	mcPlan := c13MCPlan(ctx)
-	var mcRes []tlc.Result
-	var mcErr error
+	// design model (the configurations that do not need the catalogue) in the background
+	mcPlain, mcCrafted := c13MCPlan(ctx)
+	var mcRes1, mcRes2 []tlc.Result
+	var mcErr1, mcErr2 error
 	var wg sync.WaitGroup
 	wg.Add(1)
-	go func() { defer wg.Done(); mcRes, mcErr = c13RunMC(mcPlan, ctx.Pick(4, 5), ctx.Pick(2, 3)) }()
+	go func() { defer wg.Done(); mcRes1, mcErr1 = c13RunMC(mcPlain, nil, ctx.Pick(4, 5), ctx.Pick(3, 3)) }()
 
-	scs, skippedB0 := c13Plan(ctx)
+	// the catalogue of crafted transcripts, while the exchanges that do not need it run
+	var rows []c13Row
+	var catRes tlc.Result
+	var catErr error
+	var cwg sync.WaitGroup
+	cwg.Add(1)
+	go func() { defer cwg.Done(); rows, catRes, catErr = c13Catalogue() }()
+
 	t0 := time.Now()
+	scs, skippedB0 := c13Plan(ctx, nil, 0)
 	results := c13RunAll(scs, keys, c13Workers())
+	cwg.Wait()
+	if catErr != nil {
+		wg.Wait()
+		return core.Inconcl("catalogue of crafted transcripts (MtACraft): %v", catErr)
+	}
+	wg.Add(1)
+	go func() { defer wg.Done(); mcRes2, mcErr2 = c13RunMC(mcCrafted, rows, ctx.Pick(4, 5), ctx.Pick(3, 3)) }()
+	scs2, _ := c13Plan(ctx, rows, len(scs))
+	results = append(results, c13RunAll(scs2, keys, c13Workers())...)
 	exWall := time.Since(t0).Seconds()
+	if err := c13SelfTestBinding(scs2, keys); err != nil {
+		wg.Wait()
+		return core.Inconcl("binding self-test: %v", err)
+	}
 
 	outcomes := map[string]int{}
 	bySite := map[string]int{}
+	byHist := map[string]int{}
+	rowCases := map[string]int{}
 	var clean []*c13Result
-	drifts := 0
+	drifts, skips, calls, craftedBuilt := 0, 0, 0, 0
 	for _, r := range results {
 		if r.Inconcl != "" {
 			wg.Wait()
@@ -929,26 +661,57 @@ func C13(ctx *core.Ctx) error {
 		report(r)
 		cov.Case(r.Sc.caseKey(), true)
 		outcomes[r.Outcome]++
-		bySite[r.Sc.variant()+"/"+r.Sc.Site]++
+		calls += r.Calls
+		site := r.Sc.Site
+		if r.Sc.Craft != nil {
+			site += "+crafted"
+		}
+		bySite[r.Sc.variant()+"/"+site]++
+		if r.Sc.Site != "none" {
+			h := r.Sc.Hist
+			if h == "" {
+				h = "fresh"
+			}
+			byHist[h]++
+		}
 		switch {
 		case len(r.Viols) > 0:
+		case r.Skip != "":
+			skips++
+			ctx.Note("not built: exchange %s: %s", r.Sc.caseKey(), r.Skip)
 		case len(r.Drift) > 0:
 			drifts++
 			ctx.Note("drift: exchange %s: %s", r.Sc.caseKey(), strings.Join(r.Drift, "; "))
 		default:
 			clean = append(clean, r)
 		}
+		if r.Sc.Craft != nil && r.Skip == "" {
+			craftedBuilt++
+			rowCases[r.Sc.Craft.key()]++
+		}
+	}
+	if craftedBuilt == 0 && len(ctx.Violations()) == 0 {
+		wg.Wait()
+		return core.Inconcl("none of the %d crafted transcripts could be built (the challenge of the real transcripts cannot be recovered)", len(scs2))
 	}
 	for _, want := range []struct{ site, kind string }{{"none", "-"}, {"cA", "plus1"}, {"cB", "plus1"}, {"cA", "N"}, {"cB", "addq"}, {"B", "both-plus1"}, {"B", "alice-holds-plus1"}} {
 		for _, r := range results {
-			if r.Sc.Site == want.site && r.Sc.Kind == want.kind {
-				cov.Sample(map[string]any{"scenario": r.Sc, "outcome": r.Outcome, "values": r.Info, "trace": r.Events}, 8)
+			if r.Sc.Site == want.site && r.Sc.Kind == want.kind && r.Sc.Craft == nil {
+				cov.Sample(map[string]any{"scenario": r.Sc, "outcome": r.Outcome, "values": r.Info, "trace": r.Events}, 10)
+				break
+			}
+		}
+	}
+	for _, site := range []string{"cA", "cB", "B"} {
+		for _, r := range results {
+			if r.Sc.Site == site && r.Sc.Craft != nil && r.Skip == "" {
+				cov.Sample(map[string]any{"scenario": r.Sc, "outcome": r.Outcome, "values": r.Info, "trace": r.Events}, 10)
 				break
 			}
 		}
 	}
 	// binding: every exchange that the harness judged without finding (and without drift) must be explained by MtA_Trace
-	verdicts, terr := c13ValidateTraces(clean)
+	verdicts, terr := c13ValidateTraces(clean, rows)
 	wg.Wait()
 	if terr != nil {
 		return core.Inconcl("trace validation machinery failed: %v", terr)
@@ -961,36 +724,59 @@ func C13(ctx *core.Ctx) error {
 		cov.AddTraces(v.Exchanges)
 		cov.Add("trace_lines", v.Lines)
 	}
-	if mcErr != nil {
-		return core.Inconcl("MtA design model: %v", mcErr)
+	if mcErr1 != nil {
+		return core.Inconcl("MtA design model: %v", mcErr1)
 	}
+	if mcErr2 != nil {
+		return core.Inconcl("MtA design model: %v", mcErr2)
+	}
+	cov.AddMC(catRes.Distinct, catRes.Generated)
 	var mcOut []map[string]any
-	for i, r := range mcRes {
-		cov.AddMC(r.Distinct, r.Generated)
-		mcOut = append(mcOut, map[string]any{"Q": mcPlan[i].Q, "with_check": mcPlan[i].WC, "masks": mcPlan[i].Label,
-			"distinct": r.Distinct, "generated": r.Generated, "depth": r.Depth, "wall_s": r.Wall})
+	plan := append(append([]c13MC{}, mcPlain...), mcCrafted...)
+	for i, r := range append(append([]tlc.Result{}, mcRes1...), mcRes2...) {
+		m := plan[i]
+		o := map[string]any{"Q": m.Q, "with_check": m.WC, "masks": m.Label, "crafted": m.Craft, "history": m.Hist,
+			"distinct": r.Distinct, "generated": r.Generated, "depth": r.Depth, "wall_s": r.Wall}
+		if m.Expect != "" {
+			o["self_test"] = fmt.Sprintf("memo %s, unhashed %s: TLC reports %s violated, as it must", m.Memo, m.Unhashed, r.Violated)
+		} else {
+			cov.AddMC(r.Distinct, r.Generated)
+		}
+		mcOut = append(mcOut, o)
+	}
+	var rowOut []map[string]any
+	for i := range rows {
+		rowOut = append(rowOut, map[string]any{"row": rows[i].key(), "recomputed": rows[i].Abs, "changed": rows[i].Changed, "exchanges": rowCases[rows[i].key()]})
 	}
 	cov.Set("mc_configs", mcOut)
+	cov.Set("catalogue", map[string]any{"rows": rowOut, "distinct": catRes.Distinct, "generated": catRes.Generated, "wall_s": catRes.Wall, "invariants": c13CraftInvs})
 	cov.Set("exchanges", len(results))
+	cov.Set("library_calls", calls)
 	cov.Set("exchanges_wall_s", exWall)
 	cov.Set("outcomes", outcomes)
 	cov.Set("exchanges_by_variant_and_site", bySite)
+	cov.Set("altered_exchanges_by_history", byHist)
+	cov.Set("crafted_exchanges_built", craftedBuilt)
+	cov.Set("crafted_exchanges_not_built", skips)
 	cov.Set("drift_exchanges", drifts)
 	cov.Set("wc_b0_honest_cases_not_applicable", skippedB0)
-	cov.Set("alteration_kinds", c13CtKinds)
-	cov.Set("wrong_point_kinds", c13PointKinds)
+	cov.Set("alteration_kinds", append(append([]string{}, c13CtKinds...), "mulca (cB only)"))
+	cov.Set("wrong_point_kinds", append(append([]string{}, c13PointKinds...), c13LatePointKinds[1:]...))
 	cov.Set("exhaustive", false)
 	return ctx.WriteEvidence("model_checking",
-		"one case = one real MtA exchange at real size (variant plain/check, ordered pair of vendored parameter sets, class of a and of b in {0,1,q-1,random}, "+
-			"site and kind of a single alteration of cA / cB or of a wrong public point); distinct = distinct (variant, pair, classes, site, kind) tuples; every one is non-trivial "+
-			"(a full three-message exchange). Verdict from the real outputs: (alpha+beta-a*b) mod q = 0 in math/big for unaltered exchanges, error return of the receiver for altered ones. "+
-			"states/transitions: TLC on spec/MtA.tla (ideal encryption and proofs, integer plaintext arithmetic, toy q in {3,5}) with invariants "+c13Invs+" and deadlock check; "+
-			"traces: exchanges accepted by spec/MtA_Trace.tla (observations: independent CRT decryption of cA and cB, no wrap, beta = -beta' mod q, the congruence)",
+		"one case = one real MtA exchange at real size with its history (variant plain/check, ordered pair of vendored parameter sets, class of a and of b in {0,1,q-1,random}, "+
+			"site and kind of a single alteration of cA / cB or of a wrong public point, what happens to the proof - it travels unchanged or is crafted after a catalogue row - and the history: "+
+			"the altered item alone, after the genuine item was accepted by the same process, or altered / genuine / altered); distinct = distinct tuples; every one is non-trivial "+
+			"(at least a full three-message exchange). Verdict from the real outputs: (alpha+beta-a*b) mod q = 0 in math/big for unaltered exchanges (also when they follow a refused altered message), "+
+			"error return of the receiver for every altered presentation. states/transitions: TLC on spec/MtA.tla (ideal encryption, ideal and crafted proofs, receivers with a history, integer plaintext arithmetic, "+
+			"toy q in {3,5}) with invariants "+c13Invs+" and deadlock check, plus spec/MtACraftMC.tla ("+c13CraftInvs+"); self-test configurations (weakened hash / memo, which must violate an invariant) are listed but not counted; "+
+			"traces: exchanges accepted by spec/MtA_Trace.tla (observations: independent CRT decryption of cA and cB, no wrap, beta = -beta' mod q, the congruence; the verdict of every presentation)",
 		cov, []string{
 			"the five vendored parameter sets of test/_ecdsa_fixtures (Paillier keys with their prime factors, ring-Pedersen parameters)",
-			"independent Paillier decryption by CRT with the prime factors, self-checked against the encryption formula; independent secp256k1 arithmetic of harness/obs for b*G",
-			"MtA.tla idealises encryption (perfectly homomorphic, no wrap because N >= q^2+q^5) and proofs (sound, complete, bound to their statement); TLC numbers are about that design, not the code",
+			"independent Paillier decryption by CRT with the prime factors, self-checked against the encryption formula; independent secp256k1 arithmetic of harness/obs for b*G and for the recomputed point U",
+			"MtA.tla idealises encryption (perfectly homomorphic, no wrap because N >= q^2+q^5) and proofs (sound, complete, bound to their statement; a crafted transcript passes iff nothing it changed is hashed); TLC numbers are about that design, not the code",
+			"crafted transcripts: the challenge of a real transcript is recovered with Alice's Paillier trapdoor and validated against the verification equations evaluated by the harness; exchanges on which that fails are reported as not built",
 			"check variant with b = 0 has no honest input (b*G is the identity, not representable as crypto.ECPoint): covered only as a wrong-point case",
 			"panics are recovered in the calling goroutine (the MtA functions start no goroutines)",
-		}, "java tlc2.TLC MC_MtA.tla / MC_MtA_Trace.tla")
+		}, "java tlc2.TLC MtACraftMC.tla / MC_MtA.tla / MC_MtA_Trace.tla")
 }
